@@ -613,3 +613,17 @@ Proof.
              lookup_product_natural find_host_route_natural).
   apply val_eqb_refl.
 Qed.
+
+(* ---- the VIP step matches on the address value ---- *)
+Lemma vip_forms_equal a b c d : vip_of [a; b; c; d] = vip_of (V4_PREFIX ++ [a; b; c; d]).
+Proof. reflexivity. Qed.
+Definition retext (f : vip_entry -> bytes) (vs : list vip_entry) : list vip_entry :=
+  map (fun e => mkVip (f e) (v_addr e) (v_canon e) (v_product e)) vs.
+Lemma vip_text_irrelevant f vs : by_addr (retext f vs) = by_addr vs /\ by_canon (retext f vs) = by_canon vs.
+Proof. unfold by_addr, by_canon, retext. rewrite !map_map. split; reflexivity. Qed.
+Theorem vip_by_address_value full byhost tbl vs dflt host a b c d str f :
+  enc_query full byhost tbl (retext f vs) dflt (host, ([a; b; c; d], str)) =
+  enc_query full byhost tbl vs dflt (host, (V4_PREFIX ++ [a; b; c; d], str)).
+Proof.
+  unfold enc_query. destruct (vip_text_irrelevant f vs) as [-> ->]. reflexivity.
+Qed.
